@@ -6,8 +6,8 @@
 pub mod comps;
 pub mod shapes;
 pub mod queries;
-pub mod qfamily;
 pub mod sched;
+pub mod sched_kinds;
 
 use brood::{
     entity,
@@ -131,6 +131,15 @@ pub struct Driver {
     pub light: bool,
     /// write-ahead file: the op about to be executed (so that a crash can be attributed)
     pub wal: Option<String>,
+    /// generated query family (lives in the driver binary so that the library stays small)
+    pub qfamily: Option<QFamily>,
+}
+
+#[derive(Clone, Copy)]
+pub struct QFamily {
+    pub n: usize,
+    pub run: fn(&mut Wd, usize, u32, Option<Identifier>) -> Value,
+    pub needs_target: fn(usize) -> bool,
 }
 
 #[derive(Serialize, Deserialize)]
@@ -138,7 +147,7 @@ struct Dummy;
 
 impl Driver {
     pub fn new(out: Box<dyn Write>) -> Self {
-        Driver { ws: (0..MAXW).map(|_| None).collect(), out, nev: 0, dead: false, light: false, wal: None }
+        Driver { ws: (0..MAXW).map(|_| None).collect(), out, nev: 0, dead: false, light: false, wal: None, qfamily: None }
     }
 
     pub fn slot(&mut self, w: usize) -> &mut Slot {
@@ -552,10 +561,23 @@ impl Driver {
                 queries::viewres(&mut s.world, variant, v)
             }
             "query" => {
-                let q = op["q"].as_u64().unwrap() as usize;
+                let qf = self.qfamily.expect("harness: no query family");
+                let q = op["q"].as_u64().unwrap() as usize % qf.n;
                 let v = op["v"].as_u64().unwrap() as u32;
+                let target = if (qf.needs_target)(q) { Some(self.resolve(w, &op["e"])) } else { None };
+                let pool = op.get("pool").and_then(|x| x.as_u64()).unwrap_or(0) as usize;
                 let s = self.slot(w);
-                queries::run_query(&mut s.world, q, v)
+                let mut r = if pool > 0 {
+                    let p = rayon::ThreadPoolBuilder::new().num_threads(pool).build().unwrap();
+                    let world = &mut s.world;
+                    p.install(move || (qf.run)(world, q, v, target))
+                } else {
+                    (qf.run)(&mut s.world, q, v, target)
+                };
+                if let Some(t) = target {
+                    r["id"] = idj(t);
+                }
+                r
             }
             _ => panic!("harness: unknown op {name}"),
         }
